@@ -19,7 +19,8 @@ SWEEP_MAX_LEN = 256
 # text seeds additionally get every grammar-significant character at every offset
 TEXT_SWEEP_VALUES = tuple(b':=;, "\\\r\n/%{}*-0')
 # second enumerated fault set: a maximal / minimal integer written over every offset (hostile length and count fields)
-FIELD_VALUES = {2: (0xffff, 0x0000), 3: (0xffffff, ), 4: (0xffffffff, 0x00000000, 0x7fffffff)}
+FIELD_VALUES = {2: (0xffff, 0x0000), 3: (0xffffff, ), 4: (0xffffffff, 0x00000000, 0x7fffffff),
+                8: (0xffffffffffffffff, 0x8000000000000000, 0x7fffffffffffffff, 0x0000000100000000)}
 FIELD_MAX_LEN = 1024
 
 RULE = (
@@ -63,10 +64,28 @@ def field_list():
     return _FIELD_LIST
 
 
+_NAME_LIST = None
+NAME_MAX_LEN = 4096
+
+
+def name_list():
+    """Accepted inputs that carry at least one name of a known enumeration (algorithm / protocol names, keywords)."""
+    global _NAME_LIST  # pylint: disable=global-statement
+    if _NAME_LIST is None:
+        out = []
+        for path in corpus.class_paths():
+            for raw in corpus.accepted(path):
+                if len(raw) <= NAME_MAX_LEN and wirefault.name_occurrences(raw, limit=1):
+                    out.append((path, raw.hex()))
+        _NAME_LIST = out
+    return _NAME_LIST
+
+
 def prepare(tier):  # pylint: disable=unused-argument
     workload.pools()
     sweep_list()
     field_list()
+    name_list()
     wrap_table()
     return {'phase': 'explore'}
 
@@ -89,6 +108,12 @@ def _generate(rng, index, tier, extra):  # pylint: disable=unused-argument
     if extra and extra.get('phase') == 'fields':
         path, hexdata = field_list()[index]
         return {'kind': 'sweep', 'cls': path, 'hex': hexdata, 'fields': True}
+    if extra and extra.get('phase') == 'bigint':
+        path, hexdata = field_list()[index]
+        return {'kind': 'sweep', 'cls': path, 'hex': hexdata, 'bigint': 'all' if tier == 'thorough' else 1200}
+    if extra and extra.get('phase') == 'names':
+        path, hexdata = name_list()[index]
+        return {'kind': 'sweep', 'cls': path, 'hex': hexdata, 'names': 'all' if tier == 'thorough' else 1500}
     roll = rng.random()
     if roll < 0.14 and wrap_table():
         wrapper, path = rng.choice(wrap_table())
@@ -264,6 +289,49 @@ def _entries(entry):
     return oracles.ENTRY_POINTS if entry == 'all' else (entry, )
 
 
+_FILL_ONE = {'zero': lambda n: b'\x00' * n, 'one': lambda n: b'\x00' * (n - 1) + b'\x01',
+             'top': lambda n: b'\x01' + b'\x00' * (n - 1), 'ones': lambda n: b'\xff' * n,
+             'sign': lambda n: b'\x80' + b'\x00' * (n - 1)}
+_FILL_HALVES = ('one', 'zero', 'top', 'ones')
+
+
+def _fill(length, pattern):
+    """pattern: a single value name, 'a+b' for two halves, or '4a+b' for an 0x04 octet followed by two halves."""
+    lead = b''
+    if pattern.startswith('4'):
+        lead, pattern, length = b'\x04', pattern[1:], length - 1
+    if '+' in pattern:
+        first, second = pattern.split('+')
+        return lead + _FILL_ONE[first](length // 2) + _FILL_ONE[second](length - length // 2)
+    return lead + _FILL_ONE[pattern](length)
+
+
+def _fill_spans(raw):
+    """[(offset, length, patterns)]: contents of plausible length-prefixed spans (4-, 2-, 1-octet prefix holding
+    exactly a length that fits) and even-length tails of the input."""
+    halves = ['%s+%s' % (a, b) for a in _FILL_HALVES for b in _FILL_HALVES]
+    out = []
+    seen = set()
+    for size, minimum in ((4, 1), (2, 2), (1, 16)):
+        for at in range(0, len(raw) - size):
+            length = int.from_bytes(raw[at:at + size], 'big')
+            start = at + size
+            if not minimum <= length <= 600 or start + length > len(raw) or (start, length) in seen:
+                continue
+            seen.add((start, length))
+            patterns = list(_FILL_ONE)
+            if length >= 8 and length % 2 == 0:
+                patterns += halves
+            if length >= 9 and length % 2 == 1 and raw[start] == 4:
+                patterns += ['4' + item for item in halves]
+            out.append((start, length, patterns))
+    for start in range(0, len(raw) - 7):
+        length = len(raw) - start
+        if length % 2 == 0 and length <= 300 and (start, length) not in seen:
+            out.append((start, length, halves))
+    return out
+
+
 def _exec_sweep(doc, res):
     cls = corpus.resolve(doc['cls']) or core.get_class(doc['cls'])
     raw = bytes.fromhex(doc['hex'])
@@ -275,6 +343,21 @@ def _exec_sweep(doc, res):
     elif doc.get('fields'):
         plan = [('field%d' % size, off, val) for size, values in sorted(FIELD_VALUES.items()) for val in values
                 for off in range(0, len(raw) - size + 1)]
+    elif doc.get('bigint'):
+        # every length-prefixed span (and every even-length tail) filled with the boundary values of a big integer or
+        # of a pair of coordinates: 0, 1, 256^k, all ones, the sign bit
+        plan = [('fill', off, '%d:%s' % (length, pattern)) for off, length, patterns in _fill_spans(raw)
+                for pattern in patterns]
+        if doc['bigint'] != 'all' and len(plan) > doc['bigint']:
+            step = len(plan) / float(doc['bigint'])
+            plan = [plan[int(k * step)] for k in range(doc['bigint'])]
+    elif doc.get('names'):
+        # every name the input carries, replaced by every other name of the same enumeration (lengths kept consistent)
+        plan = [('name', start, '%d:%s' % (end, token.hex())) for start, end, tokens in wirefault.name_occurrences(raw)
+                for token in tokens if token != raw[start:end]]
+        if doc['names'] != 'all' and len(plan) > doc['names']:
+            step = len(plan) / float(doc['names'])
+            plan = [plan[int(k * step)] for k in range(doc['names'])]
     else:
         plan = [('trunc', cut, 0) for cut in range(len(raw))]
         values = SWEEP_VALUES + (TEXT_SWEEP_VALUES if wirefault.is_text(raw) else ())
@@ -284,6 +367,18 @@ def _exec_sweep(doc, res):
             data = raw[:off]
             res.stats['fault.trunc'] += 1
             entries = oracles.ENTRY_POINTS
+        elif mode == 'fill':
+            length, pattern = val.split(':')
+            data = raw[:off] + _fill(int(length), pattern) + raw[off + int(length):]
+            if data == raw:
+                continue
+            res.stats['fault.fill'] += 1
+            entries = ('parse_immutable', )
+        elif mode == 'name':
+            end, token = val.split(':')
+            data = wirefault.substitute_name(raw, off, int(end), bytes.fromhex(token))
+            res.stats['fault.name'] += 1
+            entries = ('parse_immutable', )
         elif mode.startswith('field'):
             size = int(mode[5:])
             data = raw[:off] + val.to_bytes(size, 'big') + raw[off + size:]
@@ -466,13 +561,16 @@ def check(tier, seed):
     began = time.time()
     me = __import__('simverif.props.c02', fromlist=['x'])
     extra = prepare(tier)
+    histories = core.history_batch(me, seed, tier, extra)      # first: this process has executed no run yet
     core.determinism_selftest(me, seed, tier, extra, count=60)
     n_sweep = len(sweep_list())
     sweep = core.run_batch(me, seed, tier, n_sweep, 400.0, {'phase': 'sweep'}, chunk=8)
     fields = core.run_batch(me, seed, tier, len(field_list()), 400.0, {'phase': 'fields'}, chunk=4)
+    names = core.run_batch(me, seed, tier, len(name_list()), 400.0, {'phase': 'names'}, chunk=2)
+    bigint = core.run_batch(me, seed, tier, len(field_list()), 600.0, {'phase': 'bigint'}, chunk=4)
     n_runs, wall = BUDGET[tier]
     explore = core.run_batch(me, seed, tier, n_runs, wall, extra)
-    batch = core.merge_batches([sweep, fields, explore])
+    batch = core.merge_batches([sweep, fields, names, bigint, explore, histories])
     coverage = core.coverage_from_batch(
         batch, RULE, fault_kinds=wire.FAULT_KINDS,
         probes=('corrupted_input_accepted', 'second_layer_parse', 'faulted_item_accepted_inside_container'),
